@@ -438,6 +438,11 @@ func genRenderCases(rng *gen.Rng, count int, emit func(Case)) {
 			emit(Case{Gen: "G5-render", Kind: "render", S: gen.JSONExpr(rng, 1+rng.Intn(3), rng.Chance(3, 4)), Rel: desc, Aux: "json", Idx: i})
 			continue
 		}
+		if rng.Chance(1, 5) {
+			// trees built by direct constructor calls on arbitrary argument values
+			emit(Case{Gen: "G7-render", Kind: "render", S: gen.MkCall(rng), Rel: desc, Aux: "mk", Idx: i})
+			continue
+		}
 		t := gen.RandomTreeTop(rng, 1+rng.Intn(4))
 		df := ""
 		if rng.Chance(1, 4) {
@@ -522,7 +527,14 @@ func sqlOf(f string) string {
 
 // specC12: the JSON encoding of a parse result round-trips.
 func specC12(c *Case, ps []*Probe) []string {
-	if c.Kind != "rt" || !utf8.ValidString(c.S) || !utf8.ValidString(c.DF) {
+	if c.Kind == "mkrt" {
+		if len(ps) < 3 || ps[0].Op != "q" {
+			return nil // the constructor-built tree is not a parse result: outside C12's quantifier
+		}
+		if printed, err := hexDecode(strings.TrimPrefix(ps[0].Impl["S"], "ok:")); err != nil || !utf8.ValidString(printed) {
+			return nil
+		}
+	} else if c.Kind != "rt" || !utf8.ValidString(c.S) || !utf8.ValidString(c.DF) {
 		return nil
 	}
 	q := ps[0]
@@ -1091,16 +1103,23 @@ func init() {
 				rt(c)
 			}
 		})
+		for i := 0; i < tiered(cfg, 30000, 600000); i++ {
+			emit(Case{Gen: "G7-mkrt", Kind: "mkrt", S: gen.MkCall(rng), Idx: i})
+		}
 	}})
 	add(&Property{ID: "C15", Fields: fields("R"), Spec: specC15, Generate: func(cfg RunConfig, emit func(Case)) {
 		rng := gen.NewRng(cfg.Seed, 15)
 		emit(Case{Gen: "isolation", Kind: "isolation", S: "a:b"})
 		genRenderCases(rng, tiered(cfg, 120000, 2000000), emit)
 	}})
-	add(&Property{ID: "C05", Fields: fields("P"), Spec: specTree, Generate: func(cfg RunConfig, emit func(Case)) {
+	add(&Property{ID: "C05", Fields: fields("P", "U", "V"), Spec: specTree, Generate: func(cfg RunConfig, emit func(Case)) {
 		rng := gen.NewRng(cfg.Seed, 5)
 		genTrees(rng, tiered(cfg, 150000, 3000000), 4, emit)
 		genTokenSeqs(tiered(cfg, 3, 4), []string{""}, emit)
+		// the public constructors are C05's oracle: their model is tied by direct calls on arbitrary argument values
+		for i := 0; i < tiered(cfg, 40000, 800000); i++ {
+			emit(Case{Gen: "G7-mk", Kind: "mk", S: gen.MkCall(rng), Idx: i})
+		}
 	}})
 	add(&Property{ID: "C06", Fields: fields("P"), Spec: specFromProbes("accepted query: "), Generate: func(cfg RunConfig, emit func(Case)) {
 		rng := gen.NewRng(cfg.Seed, 6)
